@@ -176,7 +176,17 @@ func (g *genCtx) node(si *StructInfo, fixed map[string]Val) *Node {
 			if g.o.NoUnkeyed {
 				continue
 			}
-			cnt := rapid.IntRange(1, g.o.MaxList).Draw(g.t, f.Name+"#")
+			ulo, uhi := 1, g.o.MaxList
+			if f.Min > 0 {
+				ulo = int(f.Min)
+			}
+			if f.Max > 0 && int(f.Max) < uhi {
+				uhi = int(f.Max)
+			}
+			if uhi < ulo {
+				uhi = ulo
+			}
+			cnt := rapid.IntRange(ulo, uhi).Draw(g.t, f.Name+"#")
 			for i := 0; i < cnt; i++ {
 				n.UList[f.Name] = append(n.UList[f.Name], g.node(f.Child, nil))
 			}
